@@ -13,7 +13,7 @@
 From GV.Model Require Import Ast Spec.
 From GV.Model Require Import Lex ValueParse QueryParse OpParse ClauseParse CnfParse FilterParse ClauseFParse CnfFParse LetParse CallParse FullParse.
 From GV.Proofs Require Import LexProps ValueParseProps ValueSpellProps ValueSpellExample.
-From GV.Proofs Require Import QueryParseProps QuerySpellProps QuerySpellExample ThisProps OpParseProps ClauseParseProps ClauseSpellProps ClauseSpellExample CnfParseProps OpSoundProps ClauseFuelProps CnfSpellProps CnfSpellExample FilterParseProps ClauseFProps CnfFProps LetParseProps CallParseProps FuelMonoProps CallExtendProps FullParseProps.
+From GV.Proofs Require Import QueryParseProps QuerySpellProps QuerySpellExample ThisProps OpParseProps ClauseParseProps ClauseSpellProps ClauseSpellExample CnfParseProps OpSoundProps ClauseFuelProps CnfSpellProps CnfSpellExample FilterParseProps ClauseFProps CnfFProps LetParseProps CallParseProps FuelMonoProps CallExtendProps FullParseProps FullLinkProps.
 
 Theorem C14_keyword_tables_are_the_documented_ones :
   set_eqb kw_in_keyword ["in"; "IN"] = true /\ set_eqb kw_keys ["keys"; "KEYS"] = true /\
@@ -388,3 +388,26 @@ Print Assumptions C14_whole_file_agreement_is_equality.
 Theorem C14_layout_only_is_the_empty_file : forall rv name s, skip_ws_comments s = EmptyString -> rules_file rv name s = FEmpty.
 Proof. exact layout_only_is_empty. Qed.
 Print Assumptions C14_layout_only_is_the_empty_file.
+
+(* the whole-grammar parser reads the filter-free fragment exactly as the proved layers do ... *)
+Theorem C14_whole_grammar_reads_queries_alike : forall rv n s x, access n s = x -> x <> PUnk -> x <> POof ->
+  forall m, (n <= m)%nat -> xaccess rv (S (S m)) s = pmap query_tree x.
+Proof. exact xaccess_extends. Qed.
+Print Assumptions C14_whole_grammar_reads_queries_alike.
+
+Theorem C14_whole_grammar_reads_clauses_alike : forall rv n s c r, clause rv n s = POk c r ->
+  forall m, (n <= m)%nat -> xaccess_clause rv (S (S (S (S m)))) s = POk (clause_tree c) r.
+Proof. exact xaccess_clause_extends. Qed.
+Print Assumptions C14_whole_grammar_reads_clauses_alike.
+
+(* ... so every concrete spelling of an access clause / of a query, read by the whole-grammar parser, is the tree of that clause / query *)
+Theorem C14_whole_grammar_reads_every_clause_spelling : forall rv c o rest, cwf rv c o -> cfollow rv c rest ->
+  xaccess_clause rv (S (S (S (S (S (String.length (crender rv c +++ rest))))))) (crender rv c +++ rest) =
+  POk (clause_tree (cdenote c o)) (match cl_msg c with Some _ => rest | None => skip_ws_comments rest end).
+Proof. exact whole_grammar_reads_every_clause_spelling. Qed.
+Print Assumptions C14_whole_grammar_reads_every_clause_spelling.
+
+Theorem C14_whole_grammar_reads_every_query_spelling : forall rv c rest, qwf c -> query_end rest ->
+  xaccess rv (S (S (access_fuel (qrender c +++ rest)))) (qrender c +++ rest) = POk (query_tree (qdenote c)) rest.
+Proof. exact whole_grammar_reads_every_query_spelling. Qed.
+Print Assumptions C14_whole_grammar_reads_every_query_spelling.
